@@ -26,7 +26,11 @@ R = Registry(
         "raise under _is_disconnect, invalidates the pool only when asked to, never touches pool or "
         "connection for non-disconnect errors, consults dialect.is_disconnect only for DBAPI errors on an "
         "open connection and copies back the handle_error listener's verdict; _revalidate_connection "
-        "refuses to reconnect inside a transaction; commit on an invalidated transaction raises."
+        "refuses to reconnect inside a transaction; commit on an invalidated transaction raises; the per-call "
+        "error state kept on the Connection (_reentrant_error, _is_disconnect: class default shadowed on the "
+        "instance) is back at its default on every exit of the handler, so one error's disconnect verdict never "
+        "decides the next error's (the in-progress flag that gates autobegin -- the premise of the "
+        "transaction-pending gate -- is the same obligation for the `= True/= False` spelling: C23-R7)."
     ),
     not_decided="which driver errors each dialect's is_disconnect() recognises; behaviour of user handle_error listeners.",
 )
@@ -432,3 +436,6 @@ R.mutant("benign-flag-snapshot-local", ENG,
 R.mutant("benign-flag-reset-by-assignment", ENG,
          sub("            if self._is_disconnect:\n                del self._is_disconnect\n                if not self.invalidated:\n",
              "            if self._is_disconnect:\n                self._is_disconnect = False\n                if not self.invalidated:\n"), None)
+R.mutant("early-raise-after-classification", ENG,
+         sub("        invalidate_pool_on_disconnect = not is_exit_exception\n",
+             "        invalidate_pool_on_disconnect = not is_exit_exception\n        if is_sub_exec:\n            raise e\n"), "C27-R5")
